@@ -1,15 +1,16 @@
 #!/usr/bin/env python3
 """BOUNDED stand-in (not a proof) for C12: every single structural fault of the kinds
 
-    delete an element | delete an attribute | empty a text node | duplicate an element | retarget an href to a missing id
+    delete an element | duplicate an element | empty a text node | delete an attribute | empty an attribute | set an attribute to a foreign
+    (non-ASCII) text | retarget an href to a missing id, to its own element, or make its target require it back (cyclic requirements)
 
 applied at every position of the example models shipped with the repository (examples/src/**/*.dmn), plus the unmodified models:
 parse + build the evaluator + evaluate every invocable with an empty context on the real code (replay driver, catch_unwind).
 A PANIC line or a crash of the driver process (stack overflow, abort) is a failure.
-Self / ancestor retargeting (cyclic requirements) is not generated here; the recursive example model N_0088 is excluded: a recorded known finding (stack overflow).
+The recursive example model N_0088 is excluded: a recorded known finding (stack overflow).
 
 usage: modelfaults.py [--models N] [--seed S]      (quick: a seeded choice of N models; thorough: all)
-prints `modelfaults cases=N failures=M` and up to five FAIL lines; exit 0 / 2.
+prints `modelfaults cases=N failures=M` and one FAIL line per failing case; exit 0 / 2.
 """
 import glob
 import os
@@ -57,14 +58,69 @@ def faults(xml):
         inner = xml[o.end():e]
         if o.group(4) != '/' and '<' not in inner and inner.strip():
             res.append(('empty text of <%s> at %d' % (o.group(2), s), xml[:o.end()] + xml[e - len('</%s>' % o.group(2)):]))
+    # cyclic item definitions: the typeRef of an item definition (or of one of its components) names the definition itself
+    for (s, e, o) in els:
+        if o.group(2).split(':')[-1] == 'typeRef' and o.group(4) != '/':
+            owner = None
+            for (s2, e2, o2) in els:
+                if s2 < s and e2 >= e and o2.group(2).split(':')[-1] == 'itemDefinition':
+                    m = re.search(r'\sname\s*=\s*"([^"]*)"', o2.group(3) or '')
+                    if m and (owner is None or s2 < owner[0]):
+                        owner = (s2, m.group(1))
+            if owner:
+                close = e - len('</%s>' % o.group(2))
+                res.append(('set typeRef at %d to the name of its own item definition %s' % (s, owner[1]), xml[:o.end()] + owner[1] + xml[close:]))
     for (s, e, o) in els:
         for a in ATTR.finditer(o.group(3) or ''):
             a0 = o.start(3) + a.start()
             a1 = o.start(3) + a.end()
             res.append(('delete attribute %s of <%s> at %d' % (a.group(1), o.group(2), s), xml[:a0] + xml[a1:]))
+            if a.group(1).startswith('xmlns'):
+                continue
+            res.append(('empty attribute %s of <%s> at %d' % (a.group(1), o.group(2), s), xml[:a0] + ' %s=""' % a.group(1) + xml[a1:]))
+            # a foreign value: 40 two-byte characters, once from an even and once from an odd byte offset (whatever a message does with
+            # the value - quoting, shortening - meets a character boundary in one of the two and the middle of a character in the other)
+            for (k, v) in enumerate((FOREIGN, 'a' + FOREIGN)):
+                res.append(('set attribute %s of <%s> at %d to foreign text #%d' % (a.group(1), o.group(2), s, k + 1), xml[:a0] + ' %s="%s"' % (a.group(1), v) + xml[a1:]))
             if a.group(1) == 'href':
                 res.append(('retarget href of <%s> at %d to a missing id' % (o.group(2), s), xml[:a0] + ' href="#_no_such_element_"' + xml[a1:]))
+                # cyclic requirements: the reference points to the element it sits in (the nearest enclosing element with an id) ...
+                own = enclosing_id(els, s, e)
+                if own:
+                    res.append(('retarget href of <%s> at %d to its own element %s' % (o.group(2), s, own), xml[:a0] + ' href="#%s"' % own + xml[a1:]))
+                    # ... or the element it points to is made to point back (a cycle of two)
+                    target = a.group(2)[1:-1].lstrip('#')
+                    back = first_href_inside(els, target)
+                    if back is not None and target != own:
+                        (b0, b1) = back
+                        if b1 <= a0 or b0 >= a1:
+                            res.append(('make the target of href of <%s> at %d require it back (%s <-> %s)' % (o.group(2), s, own, target), xml[:b0] + ' href="#%s"' % own + xml[b1:]))
     return res
+
+
+FOREIGN = '\u017c\u00f3\u0142\u0107' * 10
+
+
+def enclosing_id(els, s, e):
+    best = None
+    for (s2, e2, o2) in els:
+        if s2 < s and e2 >= e:
+            m = re.search(r'\sid\s*=\s*"([^"]*)"', o2.group(3) or '')
+            if m and (best is None or s2 > best[0]):
+                best = (s2, m.group(1))
+    return best[1] if best else None
+
+
+def first_href_inside(els, ident):
+    """(start, end) of the first href attribute inside the element whose id is ident"""
+    for (s2, e2, o2) in els:
+        if re.search(r'\sid\s*=\s*"%s"' % re.escape(ident), o2.group(3) or ''):
+            for (s3, e3, o3) in sorted(els):
+                if s2 < s3 and e3 <= e2:
+                    for a in ATTR.finditer(o3.group(3) or ''):
+                        if a.group(1) == 'href':
+                            return (o3.start(3) + a.start(), o3.start(3) + a.end())
+    return None
 
 
 def main():
@@ -75,7 +131,8 @@ def main():
     if '--seed' in sys.argv:
         seed = int(sys.argv[sys.argv.index('--seed') + 1])
     files = sorted(glob.glob(os.path.join(REPO, 'examples/src/**/*.dmn'), recursive=True))
-    # models with recursive knowledge models are a recorded known finding (stack overflow on inputs that never reach the base case)
+    # models with recursive knowledge models are a recorded known finding (stack overflow on inputs that never reach the base case):
+    # N_0088 itself is rejected at build (recursive item definition), but single faults that make it build would run into that finding
     files = [f for f in files if os.path.basename(f) not in ('N_0088.dmn',)]
     if len(files) < 20:
         print('modelfaults could not run: only %d example models found' % len(files))
@@ -165,8 +222,7 @@ def main():
             v = results.get(p, 'MISSING')
             if v.startswith('PANIC') or v in ('CRASH', 'MISSING'):
                 nfail += 1
-                if len(fails) < 5:
-                    fails.append('%s with fault `%s` => %s' % (model, what, v))
+                fails.append('%s with fault `%s` => %s' % (model, what, v))
         print('modelfaults cases=%d failures=%d models=%d' % (len(plan), nfail, len(files)))
         for f in fails:
             print('FAIL ' + f)
